@@ -142,6 +142,8 @@ def _mutate(obj, mut):
         obj.parameters['p'].setProperty('visibility', 3)
     elif mut == 'cmdarg':
         obj.commands['c'].argument.setProperty('max', 3)
+    elif mut == 'statustext':
+        obj.parameters['status'].datatype.members[1].setProperty('maxchars', 10)
     elif mut == 'cmdres':
         obj.commands['c'].result.setProperty('min', 2)
     elif mut == 'tgtmin':
@@ -377,7 +379,7 @@ P_DER = ['props', 'props2', 'ppty', 'dt', 'noinh', 'bare', 'bare3', 'none', 'new
 Q_DER = ['ppty', 'props', 'bare', 'none']
 V_DER = ['unit', 'lim', 'dt']
 C_DER = ['cmd', 'cprops', 'cgroup', 'method', 'none']
-MUTS = ['setmax', 'setmin', 'setunit', 'reginput', 'reginput2', 'pvis', 'cmdarg', 'cmdres', 'tgtmin']
+MUTS = ['setmax', 'setmin', 'setunit', 'reginput', 'reginput2', 'pvis', 'cmdarg', 'cmdres', 'statustext', 'tgtmin']
 
 
 def random_program(rnd, nclasses, ninst, nmut):
